@@ -176,6 +176,23 @@ func c13Scenarios(tier string) []*core.Scenario {
 			}
 			return one("mut", fmt.Sprintf("%q", src), src, feat("prog", fmt.Sprint(pi), "op", fmt.Sprint(op)))
 		}})
+	// ill-formed / unusual operand texts in every statement template
+	scs = append(scs, &core.Scenario{Name: "operand_zoo", Bound: -1,
+		Rule:   "every statement template (an operand position of each supported statement) x every text of an operand zoo (identifiers with $ . _ {{ }}, reserved words, unknown registers, unbalanced or odd brackets/parentheses/quotes, dangling operators, huge numbers, segment forms)",
+		Bounds: map[string]any{"templates": len(c13Templates), "operand_texts": len(c13Zoo)},
+		Build: func(c *core.Chooser) *core.Case {
+			t := c13Templates[c.Pick("template", len(c13Templates))]
+			z := c13Zoo[c.Pick("operand", len(c13Zoo))]
+			src := strings.ReplaceAll(t, "{}", z)
+			if !strings.HasSuffix(src, "\n") {
+				src += "\n"
+			}
+			if !strings.Contains(t, "{}:") && !strings.HasPrefix(t, "{} EQU") && !strings.HasPrefix(t, "X EQU") && !strings.HasPrefix(t, "[") {
+				src = "\t" + src
+			}
+			src = "pre:\n" + src
+			return one("zoo", fmt.Sprintf("%q", src), src, feat("template", t, "operand", z))
+		}})
 	// C07's operand space under the liveness oracle
 	ar := 2
 	kinds := c07Kinds
@@ -201,6 +218,15 @@ func c13Scenarios(tier string) []*core.Scenario {
 		}})
 	return scs
 }
+
+var c13Templates = []string{"MOV AX,{}", "MOV {},AX", "MOV EAX,{}", "JMP {}", "JE {}", "CALL {}", "DB {}", "DW {}", "DD {}", "RESB {}", "INT {}", "PUSH {}", "POP {}", "IN AL,{}", "OUT {},AL",
+	"ADD CX,{}", "CMP {},1", "LGDT {}", "{} EQU 1", "X EQU {}", "ORG {}", "ALIGNB {}", "SHL AX,{}", "IMUL CX,{}", "GLOBAL {}", "EXTERN {}", "[BITS {}]", "[FORMAT {}]", "[FILE {}]", "[SECTION {}]", "{}:",
+	"JMP DWORD {}:0", "JMP DWORD 8:{}", "MOV AX,[{}]", "MOV BYTE [{}],1", "MOV AX,[BX+{}]", "NOT {}", "RET {}", "HLT {}", "{}", "{} AX", "MOV AX,1,{}"}
+
+var c13Zoo = []string{"$x", "x$y", "$", "$$", "_", "__", "a.b", ".x", "x.", "..", "{{.x}}", "{{x", "}}", "x{{.y}}", "{{.pre}}", "{{", "{{.}}", "{{template}}", "0x", "0xg", "1a", "a-", "EAXX", "AXE", "BYTE", "WORD", "DWORD",
+	"SHORT", "FAR", "NEAR", "PTR", "DWORD PTR", "ST0", "MM0", "XMM0", "CR8", "CR1", "DR0", "TR6", "ES:", ":ES", "ES:BX", "ES:[BX]", "1:2:3", "[", "]", "[]", "[[BX]]", "[BX", "BX]", "[BX+]", "[+BX]",
+	"[BX++SI]", "[BX*2]", "[EAX*3]", "[EAX*EBX]", "[ESP*2]", "[1+2", "[BX+SI+DI]", "[AX+BX+CX+DX]", "(1", "1)", "()", "(())", "\"\"", "\"a", "'a'", "'ab", "''", "-", "--1", "---1", "+1", "1+", "*", "1//2", "1 2", "1,,2", ",", ",1",
+	"99999999999999999999", "0xffffffffffffffffff", "-99999999999999999999", "0x7fffffffffffffff", "-9223372036854775808", "1/0", "1%0", "(1-1)*(2/0)", "pre", "pre+1", "pre-pre", "pre*2", "$+1", "$-$", "EQU", "GLOBAL", "DB", "MOV", "\t", " ", ";", "#", "\\", "@", "~", "!", "?", "`", "\x00", "\x7f", "\xff"}
 
 type scaleFamily struct {
 	name string
